@@ -114,6 +114,9 @@ def make_bits(x, n, route):
     return b, route
 
 
+_SHARED_FFX = {}
+
+
 def run_case(case):
     from toolkit.bits import Bitset
     from toolkit.symmetric_encryption.fpe import BitwiseFFX
@@ -122,7 +125,10 @@ def run_case(case):
     try:
         if kind == "ffx_exhaustive":
             key, n = B(case["key"]), case["n"]
-            ffx = BitwiseFFX()
+            # ONE cipher object per key serves every bit length n = 2..12 in turn (the cases of a key run in one process, in order);
+            # a second, fresh object must agree with it
+            ffx = _SHARED_FFX.setdefault(case["key"], BitwiseFFX())
+            other = BitwiseFFX()
             prp = get_prp_implementation(case.get("alias", "BitwiseFPEPRP"))(message_bit_length=n, key_bit_length=len(key) * 8)
             kb = Bitset(key, len(key) * 8)
             seen = set()
@@ -135,6 +141,10 @@ def run_case(case):
                 _chk(d, n, "ffx.decrypt")
                 if int(d) != x:
                     raise Violation("decrypt(encrypt(%d)) = %d (n=%d)" % (x, int(d), n), "ffx:inverse")
+                if x % 7 == 0 or x == (1 << n) - 1:
+                    if int(other.encrypt(key, Bitset(x, n))) != int(e) or int(other.decrypt(key, Bitset(int(e), n))) != x:
+                        raise Violation("a cipher object that has served other bit lengths under this key and a fresh object disagree "
+                                        "on x=%d, n=%d" % (x, n), "ffx:objects_disagree")
                 d2 = ffx.decrypt(key, v)
                 _chk(d2, n, "ffx.decrypt")
                 if int(ffx.encrypt(key, d2)) != x:
@@ -188,6 +198,22 @@ def run_case(case):
             y = case["y"] % (1 << n)
             if y != x and int(ffx.encrypt(key, Bitset(y, n))) == int(e):
                 raise Violation("two different %d-bit inputs encrypt to the same output" % n, "ffx:collision")
+        elif kind == "fpeprp_bitkey":
+            # the bit-oriented PRP with a key length that is not a whole number of bytes: every kbits-bit key is a key
+            n, kbits = case["n"], case["kbits"]
+            prp = get_prp_implementation("BitwiseFPEPRP")(message_bit_length=n, key_bit_length=kbits)
+            ffx = BitwiseFFX()
+            seen = {}
+            for kv in case["keys"]:
+                kb = Bitset(kv % (1 << kbits), kbits)
+                for x in case["xs"]:
+                    x %= (1 << n)
+                    out = prp(kb, Bitset(x, n))
+                    _chk(out, n, "BitwiseFPEPRP")
+                    if int(out) != int(ffx.encrypt(bytes(kb), Bitset(x, n))):
+                        raise Violation("BitwiseFPEPRP with a %d-bit key differs from BitwiseFFX.encrypt under the key's bytes" % kbits, "fpeprp:bitkey_differs")
+                    if seen.setdefault((kv % (1 << kbits), int(out)), x) != x:
+                        raise Violation("two %d-bit inputs map to the same output under one %d-bit key" % (n, kbits), "fpeprp:bitkey_collision")
         elif kind == "fpeprp_contract":
             n, kbits = case["n"], case["kbits"]
             prp = get_prp_implementation("bitwise_fpe_prp")(message_bit_length=n, key_bit_length=kbits)
@@ -261,7 +287,7 @@ LR_ALIASES = ["HmacLubyRackoffPRP", "hmac-luby-rackoff-prp", "hmac_luby_rackoff_
 
 @st.composite
 def st_case(draw):
-    kind = draw(st.sampled_from(["ffx_random"] * 5 + ["lr"] * 4 + ["fpeprp_contract", "lr_contract"]))
+    kind = draw(st.sampled_from(["ffx_random"] * 5 + ["lr"] * 4 + ["fpeprp_contract", "lr_contract", "fpeprp_bitkey"]))
     c = {"kind": kind}
     if kind == "ffx_random":
         n = draw(st.one_of(st.integers(2, 64), st.integers(2, 2100),
@@ -282,6 +308,12 @@ def st_case(draw):
                             st.just(bytes([m[0] ^ 0x80]) + m[1:])))
         c.update(alias=draw(st.sampled_from(LR_ALIASES)), digest=draw(st.sampled_from(["sha1", "sha256", "md5"])),
                  key=draw(st.binary(min_size=klen, max_size=klen)).hex(), m=m.hex(), m2=m2.hex())
+    elif kind == "fpeprp_bitkey":
+        kbits = draw(st.one_of(st.integers(1, 200), st.sampled_from([1, 7, 9, 20, 100, 127, 129, 191, 255, 257])))
+        n = draw(st.integers(2, 40))
+        top = (1 << kbits) - 1
+        c.update(n=n, kbits=kbits, keys=[top, 1 << (kbits - 1), draw(st.integers(0, top)), draw(st.integers(0, top))],
+                 xs=draw(st.lists(st.integers(0, (1 << n) - 1), min_size=1, max_size=6, unique=True)))
     elif kind == "fpeprp_contract":
         n = draw(st.integers(2, 300))
         kbits = 8 * draw(st.integers(1, 32))
